@@ -16,9 +16,11 @@ import tlc
 
 DESIGN = {  # tier -> (module, cfg, serves)
     "quick": [("FixPipeline", "MC_FixPipeline_quick.cfg", {"C01", "C02", "C03", "C07", "C18"}),
-              ("FixSchedule", "MC_FixSchedule_quick.cfg", {"C03", "C09", "C10", "C08", "C19"})],
+              ("FixSchedule", "MC_FixSchedule_quick.cfg", {"C03", "C09", "C10", "C19"}),
+              ("ParseEmit", "MC_ParseEmit.cfg", {"C08", "C02"})],
     "thorough": [("FixPipeline", "MC_FixPipeline_thorough.cfg", {"C01", "C02", "C03", "C07", "C18"}),
-                 ("FixSchedule", "MC_FixSchedule_thorough.cfg", {"C03", "C09", "C10", "C08", "C19"})],
+                 ("FixSchedule", "MC_FixSchedule_thorough.cfg", {"C03", "C09", "C10", "C19"}),
+                 ("ParseEmit", "MC_ParseEmit.cfg", {"C08", "C02"})],
 }
 MUTANTS = [  # (module, cfg, invariant that must be reported violated)
     ("FixPipeline", "Mutant_FixPipeline_Forward.cfg", "C18_StepIsSumOfHunks"),
@@ -27,6 +29,7 @@ MUTANTS = [  # (module, cfg, invariant that must be reported violated)
     ("FixPipeline", "Mutant_FixPipeline_CaseLit.cfg", "C01_CodePreserved"),
     ("FixSchedule", "Mutant_FixSchedule_LinesIgnored.cfg", "Inv_C20_OnlyListed"),
     ("FixSchedule", "Mutant_FixSchedule_OffByOne.cfg", "Inv_C13_FixPhase"),
+    ("ParseEmit", "Mutant_ParseEmit_AdjacentWords.cfg", "C08_WriteIsReadIffCanonical"),
 ]
 
 FAMILY = ["C01", "C02", "C03", "C07", "C08", "C09", "C10", "C18", "C19"]
@@ -123,7 +126,7 @@ def build_items(tier, seed, wd):
     return items, sweeps
 
 
-FAMILY_FILES = ['harness/gendesign.py', 'spec/FixSchedule.tla', 'spec/MC_FixSchedule_quick.cfg', 'spec/MC_FixSchedule_thorough.cfg', 'harness/fixfam.py', 'harness/runfix.py', 'harness/configs.py', 'harness/variants.py', 'harness/vlex.py', 'spec/Edits.tla', 'spec/FixTrace.tla', 'spec/FixTrace.cfg', 'spec/FixPipeline.tla', 'spec/MC_FixPipeline_quick.cfg', 'spec/MC_FixPipeline_thorough.cfg']
+FAMILY_FILES = ['spec/ParseEmit.tla', 'spec/MC_ParseEmit.cfg', 'harness/gendesign.py', 'spec/FixSchedule.tla', 'spec/MC_FixSchedule_quick.cfg', 'spec/MC_FixSchedule_thorough.cfg', 'harness/fixfam.py', 'harness/runfix.py', 'harness/configs.py', 'harness/variants.py', 'harness/vlex.py', 'spec/Edits.tla', 'spec/FixTrace.tla', 'spec/FixTrace.cfg', 'spec/FixPipeline.tla', 'spec/MC_FixPipeline_quick.cfg', 'spec/MC_FixPipeline_thorough.cfg']
 
 
 def collect(tier):
